@@ -372,3 +372,20 @@ def run(index, rep, tier):
             rep.check(consults or not sites, "R02.11", f.qualname, "structural characters recognised without consulting is_token_quoted", fn_where(f, sites[0].stmt if sites else None), "%s consults is_token_quoted" % f.name,
                       "%s compares the current token with ( ) , : ; at %d places and never looks at is_token_quoted: a taxon label that is exactly one of these characters is written quoted (`'('`), comes back from the tokenizer as the bare character and is taken for structure - the tree is rejected as malformed or, for `,`, silently read as a different tree" % (f.qualname, len(sites)))
         rep.floor("R02.11", "structural-character comparisons in the Newick tree parser", 8, nsite)
+
+    # ---- R02.12 every TRANSLATE entry is recorded
+    with rep.section("R02.12"):
+        rep.rule("R02.12", "every TRANSLATE entry is recorded: each normal exit of add_translate_token passes the store into token_taxon_map - the token map is consulted first, so an entry that is left out is resolved by the later look-ups (labels before numbers) and can name a different taxon")
+        at = index.function(NP + ".NexusTaxonSymbolMapper.add_translate_token")
+        g = cfg_of(at)
+
+        def stores(n):
+            st = n.stmt if hasattr(n, "stmt") else None
+            a = n.ast
+            return isinstance(a, ast.Assign) and any(isinstance(t, ast.Subscript) and isinstance(t.value, ast.Attribute) and t.value.attr == "token_taxon_map" for t in a.targets)
+        if not any(stores(n) for n in g.nodes):
+            raise AnalysisError("R02.12: add_translate_token no longer stores into token_taxon_map")
+        ok, w = g.must_pass(g.entry, stores)
+        rep.check(ok, "R02.12", at.qualname, "an exit that skips the token store", fn_where(at, getattr(w, "ast", None) if w is not None and getattr(w, "ast", None) is not None else None),
+                  "add_translate_token: every normal exit passes the store",
+                  "NexusTaxonSymbolMapper.add_translate_token can return without recording the entry: the symbol look-up then falls through to the label and number look-ups, so a TRANSLATE token that equals another taxon's label resolves to that other taxon and the leaves of translated trees are permuted")
